@@ -395,7 +395,7 @@ Theorem batch_exchange_refines w A f add rem rel w' n evs :
   n = length L /\ NoDup L /\ (forall e, e ∈ L <-> (e ∈ as_live A /\ ent_matches w f e)) /\
   R w' (a_map A L (fun a => a_exchange (as_reg A) a add rem rel)) /\ cache_ok w'.
 Proof.
-  intros HR C Hadd Hnonempty H L. pose proof HR as [K Hr Hu Hl He].
+  intros HR C Hadd Hnonempty H L. pose proof HR as [K Hr Hu He].
   destruct (get_tables_exact w (as_live A) f (r2_ok _ _ _ K)) as [HLnd HLmem].
   unfold op_batch_exchange, exchange_batch_nn in H. rewrite Hu in H.
   destruct (negb _) eqn:Htok; [done|].
@@ -422,7 +422,6 @@ Proof.
   - destruct K as [_ [frees P] L0]. split; [done|exists frees; by rewrite Hp|by rewrite Hil, Hp].
   - by rewrite (fr_reg _ _ F).
   - unfold is_locked. by rewrite (fr_locks _ _ F).
-  - by rewrite (fr_listener _ _ F).
   - intros e Hin. destruct (He e Hin) as (a & Ha & V).
     pose proof (assoc_get_a_map (as_ents A) L (fun a => a_exchange (as_reg A) a add rem rel) e) as Hag. cbn beta in Hag. rewrite Hag, Ha. simpl.
     destruct (decide (e ∈ L)) as [HL|HL].
